@@ -666,21 +666,21 @@ pub fn subchecks(tier: Tier) -> Vec<SubCheck> {
         generated(
             "constructors",
             "every checked constructor of the six hash types and the position array (new_from_internals, new_from_internals_near_raw, new_from_internals_raw, init_from_internals_raw on a used object, dual constructors, init_from) with generated arguments that may be out of contract (symbols >= 64, lengths > capacity, non-zero tail, invalid block size / log, un-normalised content for normalising types); rule: contract holds => returns a valid object with that content, else the call must panic (a returned object is the violation); non-trivial = all; distinct by arguments",
-            tier.pick(60_000, 1_200_000),
+            tier.pick(300_000, 4_000_000),
             ctor_strategy,
             eval_ctor,
         ),
         generated(
             "arbitrary_bytes",
             "objects of all eight types whose bytes are a valid object with 1..3 bytes overwritten, or fully random: is_valid / full_eq / == / {:?} never panic; is_valid() agrees with the documented invariants recomputed from public accessors (plain types, position array); a dual that reports valid is the canonical encoding of its own raw form; non-trivial = all; distinct by case",
-            tier.pick(60_000, 1_200_000),
+            tier.pick(300_000, 4_000_000),
             bytes_strategy,
             eval_bytes,
         ),
         generated(
             "operation_sequences",
             "sequences of <= 30 (quick) / 100 (thorough) safe operations over a pool holding one object of each type plus a comparison target and a position array: generate from bytes, parse (grammar-derived and mutated texts), constructors with possibly bad arguments, normalise in place, every conversion into the pool's previously used destinations, dual compress / expand, target and position-array initialisation; after every step every object passes is_valid() and the re-implemented invariants, full_eq(x, x), {:?}; non-trivial = a write into a destination whose previous content was longer; distinct by sequence",
-            tier.pick(30_000, 600_000),
+            tier.pick(100_000, 1_500_000),
             move || seq_strategy(wt_seed(), max_ops),
             eval_seq,
         ),
